@@ -22,10 +22,14 @@ type kaStep struct {
 
 // runKeepAlive executes one client schedule against a fresh broker with KeepAlive = k seconds.
 // One grid unit is k/10 seconds.
-func runKeepAlive(steps []kaStep, k int) string {
+// req is the value the CONNECT carries (0 = "no keep-alive requested": the broker substitutes its default, so k is
+// then the default); unit overrides the grid (a finer grid only makes the client more active).
+func runKeepAlive(steps []kaStep, k, req int, unit time.Duration) string {
 	r := newBrokerRun("mockSuccess", 2)
 	defer r.cleanup()
-	unit := time.Duration(k) * time.Second / 10
+	if unit == 0 {
+		unit = time.Duration(k) * time.Second / 10
+	}
 	// witness subscribed to the will topic
 	wit, err := r.rawConnect("w", bAct{K: "kawit", Clean: true, Ka: 600})
 	if err != nil {
@@ -35,7 +39,10 @@ func runKeepAlive(steps []kaStep, k int) string {
 	if _, err := readPkt(wit.c, r.tmo); err != nil {
 		return "INFRA witness subscribe: " + err.Error()
 	}
-	a := bAct{K: "kacl", Clean: true, Ka: k, Will: bWill{On: true, T: "will/ka", Pl: "w1", Q: 0}}
+	a := bAct{K: "kacl", Clean: true, Ka: req, Will: bWill{On: true, T: "will/ka", Pl: "w1", Q: 0}}
+	if req == 0 {
+		a.Form = "ka0"
+	}
 	m, err := r.rawConnect("c", a)
 	if err != nil {
 		return "INFRA connect: " + err.Error()
@@ -138,6 +145,8 @@ var _ = io.EOF
 func cmdKeepAlive(a Args) {
 	res := newResult()
 	k := a.num("k", 1)
+	req := a.num("req", k)
+	unit := time.Duration(a.num("unitms", 0)) * time.Millisecond
 	var scheds [][]kaStep
 	readLines(a, func(line []byte) error {
 		var s []kaStep
@@ -157,7 +166,7 @@ func cmdKeepAlive(a Args) {
 		go func(s []kaStep) {
 			defer wg.Done()
 			defer func() { <-sem }()
-			d := runKeepAlive(s, k)
+			d := runKeepAlive(s, k, req, unit)
 			mu.Lock()
 			defer mu.Unlock()
 			res.Evaluations++
@@ -166,7 +175,7 @@ func cmdKeepAlive(a Args) {
 				res.Notes = append(res.Notes, d)
 				res.Counts["infra"]++
 			} else if d != "" {
-				res.mismatch(Mismatch{What: d, Tag: "C19", Replay: map[string]interface{}{"keepalive_s": k, "schedule": s}})
+				res.mismatch(Mismatch{What: d, Tag: "C19", Replay: map[string]interface{}{"keepalive_s": k, "connect_keepalive": req, "unit_ms": unit.Milliseconds(), "schedule": s}})
 			}
 			if len(res.Samples) < 3 {
 				res.Samples = append(res.Samples, s)
